@@ -188,7 +188,12 @@ func genHistory(t *rapid.T, o gwOpts) []PktSpec {
 		if s == 0 {
 			return 0
 		}
-		return s | uint16(rapid.IntRange(0, 3).Draw(t, "extraCaps"))<<2
+		// any value sharing at least one bit with the server: the full set, or only one of the server's mechanisms
+		m := s
+		if s == 3 {
+			m = uint16(rapid.IntRange(1, 3).Draw(t, "capsSubset"))
+		}
+		return m | uint16(rapid.IntRange(0, 3).Draw(t, "extraCaps"))<<2
 	}
 	cookies := []string{"valid:A", "valid:A", "valid:B", "valid:C", "expired:A", "wrongkey:A", "revoked:A", "garbage", "empty", "none"}
 	hosts := []string{"A", "A", "B", "C", "D"}
